@@ -84,4 +84,12 @@ example : (pathVerifyUpdate TH 2 T.term
       { inner := ⟨[false, true], none, [T.term, T.term], T.term⟩, ops := [([false, true], some 1)] } ]).isPanic
     = true := by decide
 
+/-- the trust assumption on the root is necessary for the `build_trie` site too: against an ill-formed root
+(a leaf for key `10` stored under position `0`, which no canonical set has) `verify` accepts a path, the
+checks pass, and `build_trie` is handed two keys that agree on every bit after `skip` -/
+def badRoot : T := .node (.leaf [true, false] 7) .term
+example : ∃ v, verify TH 2 { terminal := .leaf [true, false] 7, siblings := [T.term] } [false, false] badRoot = .ok v ∧
+    (pathVerifyUpdate TH 2 badRoot [ { inner := v, ops := [([false, false], some 1)] } ]).isPanic = true :=
+  ⟨_, rfl, by decide⟩
+
 end Nomt.C18
